@@ -365,6 +365,7 @@ func (env *Env) eval(e *Expr) EV {
 			pe := *env.prevEnv
 			pe.vars = env.vars
 			pe.facts = env.facts
+			pe.prevEnv = env.prevEnv // prev inside prev: still the head of the same iteration
 			return pe.eval(e.Args[0])
 		}
 		if e.Name == "pre" {
